@@ -30,8 +30,8 @@ META = {
                  "real BlockFetcher/BlockProcessor + watchdog runs of the real syncer goroutines",
 }
 
-ANSWER_FAULTS = ["err", "empty", "short", "long", "unlinked", "wrongno", "wrongpeer", "wronghash"]
-ACK_FAULTS = ["err", "nohash", "wrongno", "wronghash", "stale"]
+ANSWER_FAULTS = ["err", "empty", "short", "long", "unlinked", "wrongno", "wrongpeer", "wronghash", "stale", "stale"]
+ACK_FAULTS = ["err", "nohash", "wrongno", "wronghash", "stale", "early"]
 
 
 # ------------------------------------------------------------------ step cases
@@ -73,14 +73,14 @@ def gen_step_case(rng, big=False):
         q = rng.random()
         if q < 0.42:
             f = rng.choice(ANSWER_FAULTS) if (faulty and rng.random() < 0.25) else "ok"
-            ev.append({"ev": "answer", "which": -1 - rng.choice([0, 0, 0, 1, 1, 2, 3]), "fault": f})
+            ev.append({"ev": "answer", "which": rng.choice([0, 0, 0, 1, 1, 2, 3, 4]), "fault": f})
         elif q < 0.75:
             f = rng.choice(ACK_FAULTS) if (faulty and rng.random() < 0.08) else "ok"
             ev.append({"ev": "ack", "fault": f})
         elif q < 0.87:
             ev.append({"ev": "hashset", "n": hreq})
-        elif q < 0.99:
-            ev.append({"ev": "tick", "whichs": [rng.randrange(4) for _ in range(rng.choice([0, 0, 1, 1, 2]))]})
+        elif q < 0.997:
+            ev.append({"ev": "tick", "whichs": [rng.randrange(4) for _ in range(rng.choice([0, 0, 0, 1, 1, 2]))]})
         else:
             ev.append({"ev": "quit"})
     case["events"] = ev
@@ -202,7 +202,9 @@ def gen_real_cases(ctx):
                 if rl <= ll and not (rl == ll == common):
                     if rl < ll or rl == ll:
                         pass
-                if quick and rng.random() > 0.12:
+                if rl <= ll and rng.random() > 0.15:
+                    continue            # the request is ignored when the target is not above the local best
+                if quick and rng.random() > 0.14:
                     continue
                 cases.append({"common": common, "locallen": ll, "remotelen": rl, "target": rl, "spliceat": 0,
                               "fullscan": rng.random() < 0.5, "fetch": rng.choice([1, 2, 3]), "hashreq": rng.choice([2, 3, 5]),
